@@ -185,6 +185,9 @@ fn operation_variants() -> Vec<(&'static str, Vec<(String, String)>, Vec<(String
         ),
     ]
 }
+fn is_schema_src(f: &str) -> bool {
+    f.starts_with("schema") || f.starts_with("packages/api/")
+}
 fn projects(thorough: bool) -> Vec<Project> {
     let mut out = vec![];
     let modes = ["with-loader-ts-5.0", "with-loader-ts-4.0", "standalone-ts-4.0"];
@@ -208,6 +211,23 @@ fn projects(thorough: bool) -> Vec<Project> {
                 }
             }
         }
+    }
+    // monorepo layout: the generated file's path and the source paths diverge and then share a directory name at the
+    // same depth (packages/web/src/.. against packages/api/src/..); `sources` must still resolve to the real files
+    let (_, sfiles, sexp) = schema_variants().into_iter().nth(1).unwrap();
+    for mode in modes {
+        let so = if mode == "standalone-ts-4.0" { "packages/web/src/generated/schema.ts" } else { "packages/web/src/generated/schema.d.ts" };
+        let mv = |p: &str| p.replace("schema/", "packages/api/src/");
+        let mut files: Vec<(String, String)> = sfiles.iter().map(|(p, c)| (mv(p), c.clone())).collect();
+        let mut expect: Vec<(String, String)> = sexp.iter().map(|(n, f)| (n.clone(), mv(f))).collect();
+        files.push(("packages/web/src/q.graphql".to_string(), "#import UserFrag from \"../../shared/src/f.graphql\"\nquery GetUser($id: ID!) { user(id: $id) { ...UserFrag } }\n".to_string()));
+        files.push(("packages/shared/src/f.graphql".to_string(), "fragment UserFrag on User { id name }\n".to_string()));
+        expect.push(("GetUser".to_string(), "packages/web/src/q.graphql".to_string()));
+        expect.push(("UserFrag".to_string(), "packages/shared/src/f.graphql".to_string()));
+        let config = format!(
+            "schema: ./packages/api/src/*.graphql\ndocuments:\n  - ./packages/web/src/**/*.graphql\n  - ./packages/shared/src/**/*.graphql\nextensions:\n  nitrogql:\n    generate:\n      mode: {mode}\n      schemaOutput: ./{so}\n      type:\n        scalarTypes:\n          Date: string\n"
+        );
+        out.push(Project { label: format!("monorepo layout (packages/api/src, packages/web/src, packages/shared/src) mode={mode} schemaOutput={so}"), config, files, expect, schema_output: Some(so.to_string()) });
     }
     out
 }
@@ -437,10 +457,10 @@ fn check_project(cli: &str, index: usize, p: &Project, root: &Path, failures: &m
             if !is_schema_file && what == "property" {
                 continue;
             }
-            let expected_names: BTreeSet<&str> = p.expect.iter().filter(|(_, f)| f.starts_with("schema") == is_schema_file).map(|(n, _)| n.as_str()).collect();
+            let expected_names: BTreeSet<&str> = p.expect.iter().filter(|(_, f)| is_schema_src(f) == is_schema_file).map(|(n, _)| n.as_str()).collect();
             // which expected definition does the identifier declare?  the name itself, or an operation / fragment name
             // followed by a configured suffix (Result, Variables, Query, Mutation, ..)
-            let base = expected_names.iter().filter(|n| id == **n || (what == "type or constant" && id.starts_with(**n) && p.expect.iter().any(|(x, f)| x == *n && f.starts_with("ops")))).max_by_key(|n| n.len());
+            let base = expected_names.iter().filter(|n| id == **n || (what == "type or constant" && id.starts_with(**n) && p.expect.iter().any(|(x, f)| x == *n && !is_schema_src(f)))).max_by_key(|n| n.len());
             let Some(base) = base else { continue };
             let col = u16len(&line[..off]) as i64;
             if !at.contains(&(ln as i64, col)) {
@@ -456,7 +476,7 @@ fn check_project(cli: &str, index: usize, p: &Project, root: &Path, failures: &m
     for (name, file) in &p.expect {
         if !covered.contains(&(name.clone(), file.clone())) {
             let elsewhere: Vec<&(String, String)> = covered.iter().filter(|(n, _)| n == name).collect();
-            let what = if file.starts_with("schema") { "schema type / field" } else { "operation / fragment" };
+            let what = if is_schema_src(file) { "schema type / field" } else { "operation / fragment" };
             let imported = p.label.contains("operations=imported") && file.contains("frags");
             let astral = p.files.iter().filter(|(f, _)| f == file).any(|(_, t)| t.split('\n').any(|l| l.chars().any(|c| c.len_utf16() == 2) && l.split(|c: char| !is_name_char(c)).any(|w| w == name)));
             fail(
